@@ -64,6 +64,10 @@ CHECKS = {
    text="Every history of the bound over 4 inserts, Flush(t1), FlushAll and clean Restart on two tables (one with a WHERE, reaching the offset-only flush path) runs once on the real write path; at every hit of each of 17 instrumented steps the data directory is copied (exactly what SIGKILL at that instant leaves) and the in-flight WAL entry is additionally torn to 6 length classes; every distinct image is recovered by a fresh DB to exact quiescence and compared with the reference model of acknowledged inserts (in-flight: 0 or 1); thorough recovers twice. A real child process exiting inside the hook validates the image abstraction.",
    note="Process-kill model (page cache survives): no unsynced-block subsets, no reordered renames. Kill instants inside the wal dependency are represented only by the torn-tail classes. Conformance compares file rank and size (contents embed wall-clock WAL offsets).",
    ref="§3 C02"),
+ "C11": dict(cat="translation_validation", tech="per-program translation validation: every enumerated SQL program planned by the real planner for a cluster and locally, both executed over mock partitions",
+   text="Every program of the bounded grammar (58 320 SQL texts; quick: every 12th) × 4 partition-key sets × N in 1..6 × 3 row sets is planned with and without QueryCluster by the real planner over mock tables; the cluster plan runs against partitions split by the same murmur3 rule, the local plan over their union; fields and rows must agree (order under ORDER BY, any n rows under a bare LIMIT) and whole-query pushdown must keep every output group on one partition.",
+   note="The mock QueryCluster mirrors DB.queryCluster (per-partition planning, first partition's fields). Known findings D8, D13, D14, D15 are matched by narrow predicates (specific clause shape plus the exact discrepancy); wrong rows outside those shapes are violations.",
+   ref="§3 C11"),
 }
 
 NOT_YET = {}
